@@ -686,3 +686,8 @@ for _p in ("C13", "C05"):
                            "the time model's assumption about Send (one write, one read, both under the context's deadline) was written against.")
 for _p in ("C13", "C19", "C05"):
     PROPS[_p]["proofs"] = PROPS[_p]["proofs"] + ["Bmc.Proofs.SourcePins"]
+PROPS["C03"]["proofs"] = PROPS["C03"]["proofs"] + ["Bmc.Proofs.EndToEnd.HistoryC03"]
+PROPS["C03"]["claim"] += (" HISTORY FORM about the translated code (Proofs/EndToEnd/HistoryC03.lean): generated_history_datagrams — EVERY datagram SendCommand AS TRANSLATED hands to the transport over a whole "
+                          "history of commands (retransmissions, temporary codes, forged or undecodable replies, transport failures) is the packet of one of the history's commands under one of that command's own IV draws; "
+                          "generated_history_packets_open — the BMC opens every one of them: RMCP header, AuthCode verifies under K1, authenticated + encrypted flags, its session ID, payload decrypts under K2 to a "
+                          "checksum-valid IPMI message that is the caller's command with the caller's request body.")
